@@ -4,6 +4,7 @@ import structcases
 import obs
 
 ID = "C09"
+ENV_RERUN = 40          # cases repeated from a cargo build-script environment (lib/runner.py with_build_env)
 VALIDATE_MIX = True
 REQUIRES = ["Agree", "StructSpec", "Truth"]
 THEOREM_REQUIRES = ["C09"]
